@@ -43,14 +43,14 @@ structure Rule where
   name : Bytes
   σ : Type
   init : σ
-  step : Schema → QueryDoc → σ → Event → StepOut σ
+  step : SV → QueryDoc → σ → Event → StepOut σ
 
 /-- a rule whose observers share no state -/
-def Rule.stateless (name : Bytes) (f : Schema → QueryDoc → Event → List RErr) : Rule :=
+def Rule.stateless (name : Bytes) (f : SV → QueryDoc → Event → List RErr) : Rule :=
   { name := name, σ := Unit, init := (), step := fun s d _ e => .ok () (f s d e) }
 
 /-- a stateless rule that can panic -/
-def Rule.statelessP (name : Bytes) (f : Schema → QueryDoc → Event → Except Bytes (List RErr)) : Rule :=
+def Rule.statelessP (name : Bytes) (f : SV → QueryDoc → Event → Except Bytes (List RErr)) : Rule :=
   { name := name, σ := Unit, init := (),
     step := fun s d _ e => match f s d e with
       | .ok errs => .ok () errs
@@ -75,13 +75,13 @@ structure Running where
 
 def Rule.start (r : Rule) : Running := { rule := r, st := r.init }
 
-def Running.step (s : Schema) (d : QueryDoc) (r : Running) (e : Event) : Except Bytes (Running × List Err) :=
+def Running.step (s : SV) (d : QueryDoc) (r : Running) (e : Event) : Except Bytes (Running × List Err) :=
   match r.rule.step s d r.st e with
   | .ok st' errs => .ok ({ rule := r.rule, st := st' }, errs.map (RErr.toErr r.rule.name))
   | .panic m => .error m
 
 /-- one event: every rule in registration order -/
-def stepAll (s : Schema) (d : QueryDoc) (e : Event) : List Running → Except Bytes (List Running × List Err)
+def stepAll (s : SV) (d : QueryDoc) (e : Event) : List Running → Except Bytes (List Running × List Err)
   | [] => .ok ([], [])
   | r :: rs =>
     match r.step s d e with
@@ -91,7 +91,7 @@ def stepAll (s : Schema) (d : QueryDoc) (e : Event) : List Running → Except By
       | .error m => .error m
       | .ok (rs', errs') => .ok (r' :: rs', errs ++ errs')
 
-def runAll (s : Schema) (d : QueryDoc) : List Running → List Event → Except Bytes (List Err)
+def runAll (s : SV) (d : QueryDoc) : List Running → List Event → Except Bytes (List Err)
   | _, [] => .ok []
   | rs, e :: es =>
     match stepAll s d e rs with
@@ -107,14 +107,17 @@ inductive VResult
   | outOfFuel
   deriving DecidableEq, Repr, Inhabited
 
-/-- `validator.Validate(schema, doc, rules...)` for non-nil schema and document -/
-def validate (rules : List Rule) (s : Schema) (d : QueryDoc) : VResult :=
+/-- `Validate` on the schema view -/
+def validateV (rules : List Rule) (s : SV) (d : QueryDoc) : VResult :=
   match walkDoc s d with
   | none => .outOfFuel
   | some evs =>
     match runAll s d (rules.map Rule.start) evs with
     | .ok errs => .ok errs
     | .error m => .panic m
+
+/-- `validator.Validate(schema, doc, rules...)` for non-nil schema and document -/
+def validate (rules : List Rule) (s : Schema) (d : QueryDoc) : VResult := validateV rules s.view d
 
 /-- run-time panic text of a nil pointer dereference -/
 def nilDeref : Bytes := str "runtime error: invalid memory address or nil pointer dereference"
